@@ -127,6 +127,25 @@ Theorem c08_errors_unknown_to_reference : forall t tb refg qg minm k l g,
 Proof. exact unknown_to_reference_is_error. Qed.
 Print Assumptions c08_errors_unknown_to_reference.
 
+(* errors: the same clause at full strength — which listed markers demand the error is the declarative
+   `demands_error` of the ORIGINAL table: every gene unknown to the reference, except a gene that the query
+   lacks too, listed in an entry that is replaced by its patched version (entry_replaced: a non-root parent of
+   the tree with >= 2 children, fewer than min usable own markers, and an ancestor entry or the root entry to
+   patch with).  The check evaluates `unknown_demanded` on every table the implementation accepts. *)
+Theorem c08_errors_unknown_marker : forall t tb refg qg minm k l g,
+  dict_ok t -> tget k tb = Some l -> In g l ->
+  demands_error tb refg qg minm t k g = true ->
+  exists e, create_cache tb refg qg (Some t) minm = MErr e.
+Proof. exact unknown_marker_is_error. Qed.
+Print Assumptions c08_errors_unknown_marker.
+
+Theorem c08_accepted_demands_nothing : forall t tb refg qg minm c,
+  dict_ok t -> NoDup (map fst tb) ->
+  create_cache tb refg qg (Some t) minm = MOk c ->
+  unknown_demanded tb refg qg minm t = [].
+Proof. exact accepted_demands_nothing. Qed.
+Print Assumptions c08_accepted_demands_nothing.
+
 (* errors: a query sharing no marker with the table (corollary of c08_errors_root) *)
 Theorem c08_errors_no_shared_marker : forall t tb refg qg minm,
   (2 <= length (children t None))%nat ->
@@ -197,3 +216,19 @@ Example c08_example_errors :
   create_cache ex_table ex_ref [300] (Some ex_tree) 2 = MErr E_NOWHERE /\
   create_cache ex_table [100; 101; 102; 103; 104; 105; 199] ex_query (Some ex_tree) 2 = MErr E_NOT_IN_REF.
 Proof. vm_compute. repeat split; reflexivity. Qed.
+
+(* the unknown-marker clause: 199 (entry of node 7, unknown to the reference below) is absent from the query
+   and node 7's entry is replaced -> excused, the table is accepted; the same gene under the root (never
+   replaced) or a gene of the query (106) demands the error *)
+Definition ex_ref_no199 : list gene := [106; 105; 104; 103; 102; 101; 100].
+Example c08_example_unknown :
+  entry_replaced ex_table ex_query 2 ex_tree (Some (1%nat, 7)) = true /\
+  unknown_demanded ex_table ex_ref_no199 ex_query 2 ex_tree = [] /\
+  (exists c, create_cache ex_table ex_ref_no199 ex_query (Some ex_tree) 2 = MOk c) /\
+  unknown_demanded (tset None [102; 103; 199] ex_table) ex_ref_no199 ex_query 2 ex_tree = [(None, 199)] /\
+  create_cache (tset None [102; 103; 199] ex_table) ex_ref_no199 ex_query (Some ex_tree) 2 = MErr E_NOT_IN_REF /\
+  unknown_demanded ex_table [105; 104; 103; 102; 101; 100] ex_query 2 ex_tree = [(Some (1%nat, 7), 106)].
+Proof.
+  split; [vm_compute; reflexivity|]. split; [vm_compute; reflexivity|].
+  split; [eexists; vm_compute; reflexivity|]. vm_compute. repeat split; reflexivity.
+Qed.
